@@ -205,6 +205,20 @@ class Explorer:
                 if r == z3.unsat:
                     return False, None
                 return True, model_dict(sv.model())
+            # last resort: cvc5 on the same exact encoding (own SMT-LIB emitter); its models go through the same replay as z3's
+            if not (self.deadline is not None and time.time() > self.deadline):
+                from sxl import crosscheck
+                self.stats["cvc5_fallbacks"] = self.stats.get("cvc5_fallbacks", 0) + 1
+                try:
+                    v, m = crosscheck.solve_with_model(list(self.pc) + [b for b in bits if b.__class__ is Bit], self.solver_timeout_ms)
+                except Exception:
+                    v, m = "unknown", None
+                if v == "unsat" and all(b.__class__ is Bit or b for b in bits):
+                    self.stats["cvc5_fallback_decided"] = self.stats.get("cvc5_fallback_decided", 0) + 1
+                    return False, None
+                if v == "sat" and all(b.__class__ is Bit or b for b in bits):
+                    self.stats["cvc5_fallback_decided"] = self.stats.get("cvc5_fallback_decided", 0) + 1
+                    return True, m
             import os
             if os.environ.get("VF_DUMP_HARD"):
                 from sxl import crosscheck
